@@ -715,7 +715,7 @@ class Ex:
                 if name == "__class__":
                     return VClass(ci)
                 if name == "__dict__":
-                    return self.st.alloc(HDict([(VStr(k), v) for k, v in cell.fields.items()]))
+                    return VOpaque("objdict", None, {"of": obj})        # live view of the instance namespace
                 ga = self.find_method(ci, "__getattr__")
                 if ga is not None:
                     return self.call(VFunc(ga, obj), [VStr(name)], {}, fr)
